@@ -117,7 +117,7 @@ PROPS = {
 
 NOT_APPLICABLE = {p: "check under construction in this round (claimed once its model, theorems and engine are committed)" for p in
                   ["C%02d" % i for i in range(1, 21)]}
-HOOK_COMMITS = ["c6f7867"]
+HOOK_COMMITS = ["c6f7867", "24f55f1"]
 
 PROPS["C16"] = {'assumptions': ['HKDF-SHA256 is injective on the secrets in use (collision resistance)',
                  'crypto/rand yields the 64 lowercase hex characters randomHexKey documents'],
@@ -201,3 +201,29 @@ PROPS["C11"] = {'assumptions': ['HMAC-SHA1/HMAC-SHA256/HKDF-SHA256 are unforgeab
              'play the scripted peer and to name proof bytes as terms',
              'Go encoding/base64 + encoding/json + strings.Split/TrimSpace: JWT segments reach the model already decoded (Env tables: kid, exp/iat/sub, '
              'signature term)']}
+
+PROPS["C20"] = {'assumptions': ['crypto/rand draws do not repeat and cannot be guessed',
+                 'closing a listener resets the connections still in its backlog (kernel behaviour)',
+                 'context cancellation closes a connection blocked in a stream read (stream.readWithContext)'],
+ 'engines': ['ccb'],
+ 'lean': 'CedarProps.C20',
+ 'level_note': 'Real scheduling is sampled, the theorems are over the event model (schedules = arbitrary event lists). A connection that presented the right '
+               'id but lost (failure reply taken first, or another broker won) may stay open unreturned: observed and counted, not a clause of C20. '
+               "Unguessability of the id is crypto/rand's; the model proves one own draw per attempt.",
+ 'level_text': 'returns_only_matching, rogues_closed_never_returned (every arrival order and interleaving: the returned connection presented exactly the '
+               'generated id under CCB_REVERSE_CONNECT, everything else is closed and not returned), broker_failure_ends / broker_failure_genuine / '
+               'attempt_result_final, proxied_returns_iff / proxied_failure_ends, dial_returns_only_matching (any number of brokers, any subset working, any '
+               'completion order), at_most_one, id_fresh, other_requests_id_never_returned: kernel-checked over the event model. Tied to the code by the ccb '
+               'engine: every arrival order of <=3 (thorough <=4) connections over 8 greeting classes plus random longer sequences with byte-level varieties '
+               'on the real accept loop; broker reply x replayed hello on the real proxied request; real ccb.Dial with rogue connections around the legitimate '
+               'one, success/failure/no reply racing the reverse connection, proxied and nested contacts, 1-3 brokers (working, failing, refusing, dead), '
+               'staggered and sequential; observables = far end of the returned connection, closed state of every other scripted connection, freshness of '
+               'every request id.',
+ 'oracle_engine': {'ccb': 'ccb'},
+ 'technique': 'Lean 4 theorems (invariant of accept goroutine || reply goroutine || select loop preserved by every event; invariant of the multi-broker Dial '
+              'over all interleavings of its attempts; proxied mode by case analysis) + correspondence on the real acceptReversed / proxyRequestOnStream '
+              '(hooks) and real ccb.Dial over loopback TCP against scripted brokers and rogue peers',
+ 'trusted': ['RNG symbolic: one fresh symbol per draw; distinct draws are distinct (crypto/rand; DESIGN §3)',
+             'frame / ClassAd decoding of a greeting is a parameter of the model (a reverse connection is presented as closed | garbage | silent | hello cmd '
+             'claim); the engine ties the classes to real bytes',
+             'Go scheduler, network and timers are an explicit event list (the schedule) the theorems quantify over']}
